@@ -13,6 +13,7 @@ namespace ea {
 template<typename K_, size_t E, size_t R, typename F>
 struct CompTraits : TraitsBase<K_, E> {
     using K = K_;
+    static constexpr bool float_slopes = std::is_same_v<F, float>;
     using Index = pgm::CompressedPGMIndex<K, E, R, F>;
     static Index *build(const std::vector<K> &d) { return new Index(d.begin(), d.end()); }
     static Approx search(const Index &i, K q) { auto r = i.search(q); return Approx{r.pos, r.lo, r.hi}; }
@@ -138,6 +139,7 @@ struct EFTraits : TraitsBase<K_, E> {
     using K = K_;
     using Index = EFOpen<K, E, F>;
     static constexpr bool allow_16m = true;
+    static constexpr bool float_slopes = std::is_same_v<F, float>;
     static Index *build(const std::vector<K> &d) { return new Index(d.begin(), d.end()); }
     static Approx search(const Index &i, K q) { auto r = i.search(q); return Approx{r.pos, r.lo, r.hi}; }
     static size_t segments(const Index &i) { return i.segments_count(); }
